@@ -790,6 +790,17 @@ pub fn gen(r: &mut Rng, i: usize) -> Vec<Vec<u128>> {
             *x += 1;
         }
     }
+    if wbar {
+        // all clients on ONE cache (local or remote): with more than four requests in a case (clients
+        // are reused after a cancellation) write requests of different endpoints can pile up behind
+        // the full request channel (capacity 1) and then reach the owner in another order than they
+        // were invoked (a local sender overtakes a request still held by the remote forwarder); the
+        // model has one FIFO of write requests.  Requests over one path arrive in order.
+        let k = r.below(2);
+        for x in cache_of.iter_mut() {
+            *x = k;
+        }
+    }
     let v0 = r.range(1, 9);
     let nops = r.range(4, 18) as usize;
     // guessed status per client: 0 idle, 1 read requested, 2 write requested
